@@ -138,6 +138,7 @@ package operations
 //@   property C17
 //@   at call SignHeader#1 assert [pax-format] arg_hdr.Format == 4
 //@   at call SignHeader#2 assert [pax-format-meta] arg_hdr.Format == 4
+//@   at call SignHeader#2 assert [metadata-update-keeps-the-size-of-foreign-members] fiMode(file.Info) & 2401763328 == 0 && fiSize(file.Info) > 0 ==> has(hdr.PAXRecords, "STFS.UncompressedSize")
 //@   property C03
 //@   at call AddSuffix#1 assert [suffix-added-with-size-record] has(hdr.PAXRecords, "STFS.UncompressedSize")
 //@   at call AddSuffix#1 assert [size-record-is-the-content-length] hdr.PAXRecords["STFS.UncompressedSize"] == itoaF(fiSize(file.Info))
